@@ -47,6 +47,8 @@ def _expansion_in(prog, cfgs, fn, var: T.Optional[str]) -> T.Tuple[bool, str]:
     Recognised idioms: `if v is not None and v < 1000: v += 2000` (decided on path conditions) and
     `v + 2000 if v < 1000 else v`."""
     def small(test: ast.AST, v: str) -> bool:
+        if isinstance(test, ast.BoolOp) and isinstance(test.op, ast.And) and len(test.values) == 2 and unparse(test.values[0]) == f"{v} is not None":
+            test = test.values[1]          # `v is not None and v < 1000`
         cs = shapes.compare_shape(test)
         if not cs:
             return False
@@ -83,6 +85,12 @@ def _expansion_in(prog, cfgs, fn, var: T.Optional[str]) -> T.Tuple[bool, str]:
             v = unparse(n.ast.target)
         elif isinstance(n.ast, ast.Assign) and len(n.ast.targets) == 1 and plus2000(n.ast.value, unparse(n.ast.targets[0])):
             v = unparse(n.ast.targets[0])
+        elif not var and isinstance(n.ast, ast.Return) and isinstance(n.ast.value, ast.BinOp):
+            # a helper `if <p> is not None and <p> < 1000: return <p> + 2000 / else: return <p>`
+            for p_ in fn.params:
+                other = [r_ for r_ in walk_no_nested(fn.node) if isinstance(r_, ast.Return) and r_ is not n.ast]
+                if plus2000(n.ast.value, p_) and other and all(r_.value is not None and unparse(r_.value) == p_ for r_ in other):
+                    v = p_
         if v is None or (var and v != var):
             continue
         pc = pc or PathCond(cfg)
@@ -121,7 +129,7 @@ def two_digit_year_rule(ctx, rule: str) -> None:
                 for c in ast.walk(val):
                     if isinstance(c, ast.Call):
                         t = prog.resolve_call(pf, c)
-                        if t.kind == "func" and t.fn is not None and t.fn.module is pf.module and any(repr(fld) in unparse(a) for a in list(c.args) + [k.value for k in c.keywords]):
+                        if t.kind == "func" and t.fn is not None and t.fn.module is pf.module and any(repr(fld) in unparse(a) or unparse(a) == fld for a in list(c.args) + [k.value for k in c.keywords]):
                             ok, how = _expansion_in(prog, cfgs, t.fn, None)
                             if ok:
                                 ctx.visit(t.fn.fq)
